@@ -246,6 +246,18 @@ pub fn run(s: &Scn, st: &mut Stats, check_structure: bool) -> Verdict {
         let Some(k) = k else { return Verdict::Harness("rx.parse: no k <= 16 fits".into()) };
         return run_generic(s, st, check_structure, k, &|known| crate::ops_parse::RxCircuit { case: case.clone(), known });
     }
+    if case.op.starts_with("sp.") {
+        let c0 = crate::ops_hash::sponge::SpCircuit { case: case.clone(), known: true };
+        let mut k = None;
+        for kk in 6..=14u32 {
+            if let Ok(Ok(())) = catch(|| rayon::sim::isolated(1, || midnight_proofs::dev::MockProver::run(kk, &c0, vec![vec![], vec![]]).map(|_| ()))) {
+                k = Some(kk);
+                break;
+            }
+        }
+        let Some(k) = k else { return Verdict::Harness("sp.poseidon: no k <= 14 fits".into()) };
+        return run_generic(s, st, check_structure, k, &|known| crate::ops_hash::sponge::SpCircuit { case: case.clone(), known });
+    }
     if case.op.starts_with("ng.") {
         let k = match ng_min_k(case) {
             Ok(k) => k,
